@@ -69,7 +69,7 @@ def c16_d(ctx):
                         for _ in range(4):
                             nxt = []
                             for d in ds:
-                                m = re.match(r"^(\w+)((\.\d+)*)$", d)
+                                m = re.match(r"^(\w+)(?:@Ok\.0)?((\.\d+)*)$", d)
                                 if m and m.group(1) != vn:
                                     nxt.extend(sstr(x) + m.group(2) for x in ebfull.var_defs(m.group(1)))
                                 else:
@@ -1278,7 +1278,8 @@ def c16_r(ctx):
                     srcs = [v]
                     if v[0] == "place" and re.match(r"^\w+$", v[1]):
                         srcs = [simp(x) for x in eb.var_defs(v[1])] or [v]
-                    good = all(x[0] == "proj" and x[2].startswith("@Ok.0") and is_decode(x[1]) for x in srcs)
+                    # (simp() renders `decode(..)@Ok.0` of a matched Result as the call itself)
+                    good = all((x[0] == "proj" and x[2].startswith("@Ok.0") and is_decode(x[1])) or is_decode(x) for x in srcs)
                     what = [expr_str(x)[:100] for x in srcs]
                 if good:
                     yield ok("C16-R", key, at(f), "the PDU returned is the decoder's result for this datagram")
